@@ -448,6 +448,129 @@ theorem sys_milstein_step_formula (S : Sys K) (k : Nat) (u xi vol : Array K)
       S.inv none) := by simp only [Sys.step, hreal, Option.map_none]
   exact ⟨_, r, dW, hstep, hr0, hr2, hdW, by rw [hform]; simp [realTerm]⟩
 
+/-! ### composition: whole runs follow the documented update with the successive arrays -/
+
+/-- **The normal numbers of a run are exactly the successive arrays of the stream.**  A successful
+`m`-step run passes through states `st 0 = u, ..., st m = u'` such that step number `j` (0-based)
+is the single step of the solver applied to `st j` with array number `j` of the stream: every
+array is used by exactly one step, in order, none twice, none skipped.  (That the stream *is* the
+sequence of `standard_normal` draws of the generator handed to the equation is outside the model:
+the generator is external; the harness ties it with a twin generator.) -/
+theorem run_uses_successive_draws (S : Sys K) (sol : Solver) :
+    ∀ (m k : Nat) (u : Array K) (xs : List (Array K)) (u' : Array K) (rest : List (Array K)),
+      S.run sol k m u xs = some (u', rest) →
+        ∃ st : Nat → Array K, st 0 = u ∧ st m = u' ∧
+          ∀ j, j < m → ∃ x, xs[j]? = some x ∧ S.step sol (k + j) (st j) x = some (st (j + 1)) := by
+  intro m
+  induction m with
+  | zero =>
+    intro k u xs u' rest h
+    simp only [Sys.run, Option.some.injEq, Prod.mk.injEq] at h
+    exact ⟨fun _ => u, rfl, h.1, fun j hj => absurd hj (Nat.not_lt_zero j)⟩
+  | succ m ih =>
+    intro k u xs u' rest h
+    cases xs with
+    | nil => simp [Sys.run] at h
+    | cons x xs =>
+      simp only [Sys.run] at h
+      cases hstep : S.step sol k u x with
+      | none => simp [hstep] at h
+      | some u1 =>
+        simp only [hstep] at h
+        obtain ⟨st, h0, hm, hst⟩ := ih (k + 1) u1 xs u' rest h
+        refine ⟨fun j => match j with | 0 => u | j + 1 => st j, rfl, hm, ?_⟩
+        intro j hj
+        cases j with
+        | zero => exact ⟨x, by simp, by simp only [Nat.add_zero]; rw [hstep, h0]⟩
+        | succ j =>
+          obtain ⟨y, hy, hs⟩ := hst j (by omega)
+          refine ⟨y, by simpa using hy, ?_⟩
+          have e : k + (j + 1) = k + 1 + j := by omega
+          simp only [e]
+          exact hs
+
+/-- **A whole Euler-Maruyama run is the documented update applied with the successive arrays.**
+Composition of `run_uses_successive_draws` with `sys_euler_step_formula`: in a successful `m`-step
+run, for every step `j < m` and every entry `i`, the state changes by
+`dt*rate + r*xi_j[i] + 0.5*alpha*dt*v'/V` where `xi_j` is array number `j` of the stream and
+`r ≥ 0`, `r*r = v*dt/V`, the variance `v`, its derivative `v'` and the rate being evaluated on the
+state before the step. -/
+theorem run_euler_documented (S : Sys K) (vol : Array K)
+    (hs : S.s * S.s = S.dt) (hs0 : 0 ≤ S.s) (hreal : S.real = none)
+    (hinv : ∀ i, i < S.n → get S.inv (i % S.ncell) = 1 / get vol (i % S.ncell))
+    (hroot : ∀ (u : Array K) (i : Nat), i < S.n →
+      RootOn S.sqrt (get (S.var u) i * get S.inv (i % S.ncell)))
+    (m k : Nat) (u : Array K) (xs : List (Array K)) (u' : Array K) (rest : List (Array K))
+    (h : S.run .euler k m u xs = some (u', rest)) :
+    ∃ st : Nat → Array K, st 0 = u ∧ st m = u' ∧ rest = xs.drop m ∧
+      ∀ j, j < m → ∃ x, xs[j]? = some x ∧ ∀ i, i < S.n → ∃ r : K, 0 ≤ r ∧
+        r * r = get (S.var (st j)) i * S.dt / get vol (i % S.ncell) ∧
+        get (st (j + 1)) i = get (st j) i + S.dt * get (S.rate (k + j) (st j)) i + r * get x i
+          + 1 / 2 * S.interp.alpha * S.dt * get (S.varDiff (st j)) i / get vol (i % S.ncell) := by
+  obtain ⟨st, h0, hm, hst⟩ := run_uses_successive_draws S .euler m k u xs u' rest h
+  refine ⟨st, h0, hm, (one_draw_per_step S .euler m k u xs u' rest h).2.1, ?_⟩
+  intro j hj
+  obtain ⟨x, hx, hstep⟩ := hst j hj
+  refine ⟨x, hx, ?_⟩
+  intro i hi
+  obtain ⟨unew, r, hun, hr0, hr2, hform⟩ := sys_euler_step_formula S (k + j) (st j) x vol hs hs0 hreal
+    i hi (hinv i hi) (hroot (st j) i hi)
+  rw [hstep] at hun
+  cases hun
+  exact ⟨r, hr0, hr2, hform⟩
+
+/-- the same for the Milstein solver, with the correction `0.25*v'/V*(dW^2 - dt)`, `dW^2 = dt*xi^2` -/
+theorem run_milstein_documented (S : Sys K) (vol : Array K)
+    (hs : S.s * S.s = S.dt) (hs0 : 0 ≤ S.s) (hreal : S.real = none)
+    (hinv : ∀ i, i < S.n → get S.inv (i % S.ncell) = 1 / get vol (i % S.ncell))
+    (hroot : ∀ (u : Array K) (i : Nat), i < S.n →
+      RootOn S.sqrt (get (S.var u) i * get S.inv (i % S.ncell)))
+    (m k : Nat) (u : Array K) (xs : List (Array K)) (u' : Array K) (rest : List (Array K))
+    (h : S.run .milstein k m u xs = some (u', rest)) :
+    ∃ st : Nat → Array K, st 0 = u ∧ st m = u' ∧ rest = xs.drop m ∧
+      ∀ j, j < m → ∃ x, xs[j]? = some x ∧ ∀ i, i < S.n → ∃ r dW : K, 0 ≤ r ∧
+        r * r = get (S.var (st j)) i * S.dt / get vol (i % S.ncell) ∧
+        dW * dW = S.dt * (get x i * get x i) ∧
+        get (st (j + 1)) i = get (st j) i + S.dt * get (S.rate (k + j) (st j)) i + r * get x i
+          + 1 / 2 * S.interp.alpha * S.dt * get (S.varDiff (st j)) i / get vol (i % S.ncell)
+          + 1 / 4 * get (S.varDiff (st j)) i / get vol (i % S.ncell) * (dW * dW - S.dt) := by
+  obtain ⟨st, h0, hm, hst⟩ := run_uses_successive_draws S .milstein m k u xs u' rest h
+  refine ⟨st, h0, hm, (one_draw_per_step S .milstein m k u xs u' rest h).2.1, ?_⟩
+  intro j hj
+  obtain ⟨x, hx, hstep⟩ := hst j hj
+  refine ⟨x, hx, ?_⟩
+  intro i hi
+  obtain ⟨unew, r, dW, hun, hr0, hr2, hdW, hform⟩ := sys_milstein_step_formula S (k + j) (st j) x vol
+    hs hs0 hreal i hi (hinv i hi) (hroot (st j) i hi)
+  rw [hstep] at hun
+  cases hun
+  exact ⟨r, dW, hr0, hr2, hdW, hform⟩
+
+/-- the semi-implicit solver, whole runs: every step `j` is the fixed-point iteration started from
+`st j + (Euler-Maruyama noise increment with array number j)` -/
+theorem run_implicit_documented (S : Sys K)
+    (hs : S.s * S.s = S.dt) (hs0 : 0 ≤ S.s)
+    (h1 : ∀ (u : Array K) (i : Nat), i < S.n →
+      RootOn S.sqrt (get (S.var u) i * get S.inv (i % S.ncell)))
+    (h2 : ∀ (u : Array K) (i : Nat), i < S.n →
+      RootOn S.sqrt (S.dt * (get (S.var u) i * get S.inv (i % S.ncell))))
+    (m k : Nat) (u : Array K) (xs : List (Array K)) (u' : Array K) (rest : List (Array K))
+    (h : S.run .implicit k m u xs = some (u', rest)) :
+    ∃ st : Nat → Array K, st 0 = u ∧ st m = u' ∧ rest = xs.drop m ∧
+      ∀ j, j < m → ∃ x, xs[j]? = some x ∧
+        let base := tab S.n fun i => get (st j) i + get (S.emIncrement (st j) x) i
+        siIterate S (k + j) base S.maxiter (siGuess S.n S.dt base (S.rate (k + j) (st j)))
+          = some (st (j + 1)) := by
+  obtain ⟨st, h0, hm, hst⟩ := run_uses_successive_draws S .implicit m k u xs u' rest h
+  refine ⟨st, h0, hm, (one_draw_per_step S .implicit m k u xs u' rest h).2.1, ?_⟩
+  intro j hj
+  obtain ⟨x, hx, hstep⟩ := hst j hj
+  refine ⟨x, hx, ?_⟩
+  have := semi_implicit_adds_same_increment S (k + j) (st j) x hs hs0 (h1 (st j)) (h2 (st j))
+  simp only at this ⊢
+  rw [← this]
+  exact hstep
+
 end sysformula
 
 /-! ### the documented terms are the textbook Milstein scheme -/
@@ -671,6 +794,35 @@ example : (exSys .ito #[4, 1]).run .euler 0 2 #[1, 2] [#[3, -1]] = none := by
 example : (exSys .antiIto #[0, 0]).step .milstein 0 #[1, 2] #[3, -1]
     = some ((exSys .antiIto #[0, 0]).eulerStep 0 #[1, 2]) := by
   decide +kernel
+
+/-- the hypotheses of `run_euler_documented` / `run_milstein_documented` are satisfiable by the
+non-trivial two-cell system (non-uniform volumes 4 and 1, Stratonovich): roots, inverse volumes -/
+example : (exSys .stratonovich #[4, 1]).s * (exSys .stratonovich #[4, 1]).s = (exSys .stratonovich #[4, 1]).dt ∧
+    (0 : ℚ) ≤ (exSys .stratonovich #[4, 1]).s ∧ (exSys .stratonovich #[4, 1]).real = none ∧
+    (∀ i, i < (exSys .stratonovich #[4, 1]).n →
+      get (exSys .stratonovich #[4, 1]).inv (i % 2) = 1 / get (#[4, 1] : Array ℚ) (i % 2)) ∧
+    (∀ (u : Array ℚ) (i : Nat), i < (exSys .stratonovich #[4, 1]).n →
+      RootOn (exSys .stratonovich #[4, 1]).sqrt
+        (get ((exSys .stratonovich #[4, 1]).var u) i * get (exSys .stratonovich #[4, 1]).inv (i % 2))) := by
+  refine ⟨by decide +kernel, by decide +kernel, rfl, ?_, ?_⟩
+  · intro i hi
+    have hi' : i < 2 := hi
+    match i, hi' with
+    | 0, _ => decide +kernel
+    | 1, _ => decide +kernel
+  · intro u i hi
+    have hi' : i < 2 := hi
+    have hv : (exSys .stratonovich #[4, 1]).var u = #[4, 1] := rfl
+    rw [hv]
+    unfold RootOn
+    match i, hi' with
+    | 0, _ => decide +kernel
+    | 1, _ => decide +kernel
+
+/-- ... and the run they speak about exists and moves: two Stratonovich Euler-Maruyama steps -/
+example : ((exSys .stratonovich #[4, 1]).run .euler 0 2 #[1, 2] [#[3, -1], #[1, 1], #[5, 5]]).isSome = true ∧
+    ((exSys .stratonovich #[4, 1]).run .euler 0 2 #[1, 2] [#[3, -1], #[1, 1], #[5, 5]]).map (·.2) = some [#[5, 5]] := by
+  constructor <;> decide +kernel
 
 /-- layout: a scalar field and a two-component vector field with variances 1/10 and 3/10 -/
 example : collVars [(1 : ℚ) / 10, 3 / 10] [1, 2] = [1 / 10, 3 / 10, 3 / 10] := by decide +kernel
